@@ -1160,6 +1160,16 @@ func c09Case(c *fw.Ctx, r *rng.R, forceOp int, pinned bool) {
 			arg, _ := buildReceiverList(r, c09Vals(r, r.Intn(4), 0))
 			if r.Chance(1, 8) {
 				arg = recv
+			} else if r.Chance(1, 6) {
+				// the argument is a derived structure (a user type embedding a List), now and then an empty one
+				av := c09Vals(r, []int{0, 0, 1, 3}[r.Intn(4)], 0)
+				if r.Bool() {
+					arg = NewDList(av...)
+				} else {
+					arg = NewDDList(av...)
+				}
+				how += "; the argument is a derived structure"
+				c.Count("deriving_calls_with_a_derived_argument")
 			}
 			s.trace = append(s.trace, fmt.Sprintf("recv = %s via %s; arg = %s", spec.Trunc(stringCanon(recv), 200), how, spec.Trunc(stringCanon(arg), 100)))
 			if sv, ok := any(recv).(interface {
